@@ -74,7 +74,7 @@ for pid in ids:
 na = [{"property_id": i, "reason": "check not built yet in this round (see DESIGN.md for the planned generated check)"} for i in ids if i not in T]
 m = {
     "version": 1,
-    "setup_cmd": "cd /verif/harness && CARGO_NET_OFFLINE=true cargo build --release --offline",
+    "setup_cmd": "cd harness && CARGO_NET_OFFLINE=true cargo build --release --offline",
     "hooks": {
         "guard": "cargo feature `verif-hooks` of fancy-regex (off by default)",
         "enable": "harness/Cargo.toml depends on fancy-regex = { path = \"/repo\", features = [\"verif-hooks\"] }; ./check rebuilds it from /repo's working tree",
